@@ -25,6 +25,7 @@ import (
 	"time"
 
 	"github.com/lmorg/murex/lang"
+	"github.com/lmorg/murex/lang/types"
 	"github.com/lmorg/murex/utils/verifhook"
 	"pgregory.net/rapid"
 	"verif/harness/core"
@@ -32,6 +33,41 @@ import (
 
 func TestMain(m *testing.M) {
 	core.InitMurex()
+	// vbig <KiB>: writes that many KiB to stdout in 64 KiB writes.
+	lang.DefineFunction("vbig", func(p *lang.Process) error {
+		n, _ := p.Parameters.Int(0)
+		p.Stdout.SetDataType(types.Generic)
+		chunk := make([]byte, 64*1024)
+		for i := range chunk {
+			chunk[i] = byte('a' + i%26)
+		}
+		for kib := 0; kib < n; kib += 64 {
+			if _, err := p.Stdout.Write(chunk); err != nil {
+				return nil
+			}
+		}
+		return nil
+	}, types.Generic)
+	// vslow: drains stdin through Read() with a small buffer, pausing now and
+	// then so the writer runs into the pipe's back-pressure limit; prints the
+	// number of bytes read.
+	lang.DefineMethod("vslow", func(p *lang.Process) error {
+		p.Stdout.SetDataType(types.Integer)
+		buf := make([]byte, 32*1024)
+		total := 0
+		for i := 0; ; i++ {
+			n, err := p.Stdin.Read(buf)
+			total += n
+			if err != nil {
+				break
+			}
+			if i%8 == 0 {
+				time.Sleep(200 * time.Microsecond)
+			}
+		}
+		p.Stdout.Writeln([]byte(fmt.Sprint(total)))
+		return nil
+	}, types.Any, types.Integer)
 	core.Main(m, "C32")
 }
 
@@ -77,6 +113,16 @@ var opTemplates = [][2]string{
 	{"dump", "runtime --functions -> [fn%N]"},
 	{"dump", "runtime --config -> [proc]"},
 	{"dump", "runtime --aliases"},
+	// > 1 MiB in flight in one pipe with a consumer that drains it slowly
+	// through Read(): the writer parks on back-pressure while the reader works
+	{"stream-backpressure", "vbig 1400 -> vslow"},
+	{"stream-backpressure", "vbig 1100 -> vslow -> null"},
+	{"stream-backpressure", "vbig 300 -> vslow"},
+	// a consumer that uses a named pipe before another section creates it
+	// (Named.Get waits and retries while the table is written)
+	{"named-pipe-late", "<late%N> -> null"},
+	{"named-pipe-late", "pipe late%N ; out %T -> <late%N> ; !pipe late%N"},
+	{"named-pipe-late", "pipe other%N%T ; !pipe other%N%T"},
 	{"pipeline", "%[c,b,a] -> msort -> mtac -> format yaml -> format json"},
 	{"pipeline", "a [1..20] -> foreach x { out \"$x\" } -> msort -> [0]"},
 	{"expr", "(1 + 2 * 3)"},
@@ -245,6 +291,11 @@ var rootCauses = []struct {
 		dump := func(s string) bool { return s == "utils/json.marshal" || s == "lang.(*Process).Dump" }
 		proc := func(s string) bool {
 			return s == "lang.executeProcess" || strings.HasPrefix(s, "lang/parameters.(*Parameters).")
+		}
+		// Process.Dump itself reads the fields of running processes without any
+		// synchronisation: whoever writes one of them races with it
+		if a == "lang.(*Process).Dump" || b == "lang.(*Process).Dump" {
+			return true
 		}
 		return (proc(a) && dump(b)) || (proc(b) && dump(a))
 	}},
